@@ -315,7 +315,8 @@ def build_dsl(case, name="m"):
     elems = {}
     for c in case["constants"]:
         e = model.constant(c["name"])
-        e.equation = c["value"]
+        if c["value"] is not None:  # None: created, value assigned later (evaluates to 0.0 until then)
+            e.equation = c["value"]
         elems[c["name"]] = e
     for pn, pts in case.get("points", {}).items():
         model.points[pn] = [list(p) for p in pts]
